@@ -24,6 +24,9 @@ from rtamt.exception.exception import RTAMTException
 class StlAstParserVisitor(LtlAstParserVisitor, StlParserVisitor):
 
     def literal_to_fraction(self, text):
+        if isinstance(text, float):
+            # a constant declared with a Python float means the decimal number that was written (0.2)
+            text = repr(text)
         try:
             number = Decimal(text)
         except (InvalidOperation, ValueError, TypeError):
